@@ -17,6 +17,7 @@ CONSTANTS Times,          \* requested times (ints, may be negative)
           Solve2Modes,    \* what the modelled code does for solve + unsolved 2x2 matrix
           Progbars,       \* values of the progbar option
           Progbar0Modes,  \* what the modelled code does for progbar + integrate + zero time span
+          IntRepeatModes, \* what the modelled code does for integrate + repeated time
           PrintCases      \* TRUE: print every complete behaviour for replay (run with one worker)
 
 VARIABLES st,             \* I-model record (C18_Defs!ImplNew / ImplUpdate), or [status |-> "none"]
@@ -60,9 +61,10 @@ Init ==
 
 \* the constructor may behave in any of the configured ways (identical outcomes collapse); the
 \* updates depend on the progress-bar switch only, which is a single value per configuration
-ASSUME Cardinality(Progbar0Modes) = 1
+ASSUME Cardinality(Progbar0Modes) = 1 /\ Cardinality(IntRepeatModes) = 1
 Pb0 == CHOOSE p \in Progbar0Modes : TRUE
-ModeSet == {[expm_dop |-> e, solve2 |-> s, progbar0 |-> Pb0] : e \in ExpmDopModes, s \in Solve2Modes}
+Ir0 == CHOOSE p \in IntRepeatModes : TRUE
+ModeSet == {[expm_dop |-> e, solve2 |-> s, progbar0 |-> Pb0, int_repeat |-> Ir0] : e \in ExpmDopModes, s \in Solve2Modes}
 UpdModes == CHOOSE m \in ModeSet : TRUE
 Candidates(kind, method, hrep, dim, t0) ==
   {ImplNew(kind, method, hrep, dim, t0, pb, m) : pb \in Progbars, m \in ModeSet}
